@@ -34,6 +34,7 @@ enum Task {
     AbortC(u64, Box<Task>),
     LegReq(u64, Expr, usize, Box<Task>),
     Both(u64, Expr, usize, u64, Expr, usize, Box<Task>),
+    BothL(u64, Expr, usize, u64, Expr, usize, Box<Task>),
     Race(u64, Expr, u64, Expr, usize, Box<Task>),
 }
 #[derive(Clone, Debug)]
@@ -85,6 +86,7 @@ impl Task {
             Task::AbortC(n, k) => format!("(TAbortC {} {})", n, k.coq()),
             Task::LegReq(t, e, x, k) => format!("(TLegReq {} {} {} {})", t, e.coq(), x, k.coq()),
             Task::Both(t1, e1, x1, t2, e2, x2, k) => format!("(TBoth {} {} {} {} {} {} {})", t1, e1.coq(), x1, t2, e2.coq(), x2, k.coq()),
+            Task::BothL(t1, e1, x1, t2, e2, x2, k) => format!("(TBothL {} {} {} {} {} {} {})", t1, e1.coq(), x1, t2, e2.coq(), x2, k.coq()),
             Task::Race(t1, e1, t2, e2, x, k) => format!("(TRace {} {} {} {} {} {})", t1, e1.coq(), t2, e2.coq(), x, k.coq()),
         }
     }
@@ -92,7 +94,7 @@ impl Task {
         match self {
             Task::Ret => 1,
             Task::Emit(_, _, k) | Task::Notify(_, _, k) | Task::Req(_, _, _, k) | Task::LegReq(_, _, _, k) | Task::Join(_, k) | Task::AbortT(_, k) | Task::Yield(_, k) | Task::AbortC(_, k) => 1 + k.size(),
-            Task::Both(_, _, _, _, _, _, k) | Task::Race(_, _, _, _, _, k) => 2 + k.size(),
+            Task::Both(_, _, _, _, _, _, k) | Task::BothL(_, _, _, _, _, _, k) | Task::Race(_, _, _, _, _, k) => 2 + k.size(),
             Task::ForEach(_, _, _, b, k) | Task::Spawn(b, _, k) => 1 + b.size() + k.size(),
         }
     }
@@ -101,7 +103,7 @@ impl Task {
             Task::Ret => ("TRet", vec![]), Task::Emit(_, _, k) => ("TEmit", vec![k]), Task::Notify(_, _, k) => ("TNotify", vec![k]),
             Task::Req(_, _, _, k) => ("TReq", vec![k]), Task::LegReq(_, _, _, k) => ("TLegReq", vec![k]), Task::ForEach(_, _, _, b, k) => ("TForEach", vec![b, k]),
             Task::Spawn(b, _, k) => ("TSpawn", vec![b, k]), Task::Join(_, k) => ("TJoin", vec![k]), Task::AbortT(_, k) => ("TAbortT", vec![k]), Task::Yield(_, k) => ("TYield", vec![k]), Task::AbortC(_, k) => ("TAbortC", vec![k]),
-            Task::Both(_, _, _, _, _, _, k) => ("TBoth", vec![k]), Task::Race(_, _, _, _, _, k) => ("TRace", vec![k]),
+            Task::Both(_, _, _, _, _, _, k) => ("TBoth", vec![k]), Task::BothL(_, _, _, _, _, _, k) => ("TBothL", vec![k]), Task::Race(_, _, _, _, _, k) => ("TRace", vec![k]),
         };
         *h.entry(name).or_default() += 1;
         for s in subs { s.hist(h); }
@@ -243,6 +245,16 @@ fn exec<'a>(t: &'a Task, env: &'a mut Env, ctx: &'a Ctx, aborts: &'a Aborts) -> 
                     let (a, b) = futures::join!(f1, f2);
                     env.set(*x1, a); env.set(*x2, b); cur = k;
                 }
+                Task::BothL(t1, e1, x1, t2, e2, x2, k) => {
+                    let lctx = LEGCTX.lock().unwrap().clone();
+                    if let Some(lctx) = lctx {
+                        let f1 = lctx.request_from_shell(Op { tag: *t1, val: e1.eval(&env.vars) });
+                        let f2 = ctx.request_from_shell(Op { tag: *t2, val: e2.eval(&env.vars) });
+                        let (a, b) = futures::join!(f1, f2);
+                        env.set(*x1, a); env.set(*x2, b);
+                    }
+                    cur = k;
+                }
                 Task::Race(t1, e1, t2, e2, x, k) => {
                     let out = {
                         let mut f1 = ctx.request_from_shell(Op { tag: *t1, val: e1.eval(&env.vars) }).fuse();
@@ -324,12 +336,14 @@ impl Gen {
         *budget -= 1;
         if *budget <= 0 { return Task::Ret; }
         let mut r = self.rng.below(100);
+        if self.mix && r < 12 && self.rng.coin(1, 3) { r = 14; }
         if !self.legacy && !self.scope.is_empty() && r < 18 && self.rng.coin(1, 3) { r = 36; }   // self-abort inside an abortable command
         if self.legacy && (matches!(r, 14..=17) || r >= 84 && r <= 95 || r >= 98) { r = 20 + r % 40; }   // no join!/select!/handles in the legacy fragment
         match r {
             0..=13 => Task::Ret,
             14..=15 => { let t1 = self.tag(); let t2 = self.tag(); let e1 = self.expr(nvars); let e2 = self.expr(nvars);
                     let x1 = (self.rng.below((nvars as u64 + 1).min(7))) as usize; let x2 = x1 + 1; *budget -= 1;
+                    if self.mix && self.rng.coin(2, 3) { return Task::BothL(t1, e1, x1, t2, e2, x2, Box::new(self.task(budget, nvars.max(x2 + 1), handles, depth))); }
                     Task::Both(t1, e1, x1, t2, e2, x2, Box::new(self.task(budget, nvars.max(x2 + 1), handles, depth))) }
             16..=17 => { let t1 = self.tag(); let t2 = self.tag(); let e1 = self.expr(nvars); let e2 = self.expr(nvars);
                     let x = (self.rng.below((nvars as u64 + 1).min(8))) as usize; *budget -= 1;
@@ -804,7 +818,7 @@ mod legacy {
                     }
                     Task::Yield(n, k) => { YieldN(*n).await; cur = k; }
                     Task::Join(_, k) | Task::AbortT(_, k) | Task::AbortC(_, k) => { cur = k; }
-                    Task::Both(_, _, _, _, _, _, k) | Task::Race(_, _, _, _, _, k) => { cur = k; }
+                    Task::Both(_, _, _, _, _, _, k) | Task::BothL(_, _, _, _, _, _, k) | Task::Race(_, _, _, _, _, k) => { cur = k; }
                 }
             }
         }.boxed()
@@ -923,7 +937,7 @@ fn retag_task(t: &mut Task, n: &mut u64) {
         Task::Notify(tg, _, k) | Task::Req(tg, _, _, k) | Task::LegReq(tg, _, _, k) => { *tg = fresh(n); retag_task(k, n) }
         Task::ForEach(tg, _, _, b, k) => { *tg = fresh(n); retag_task(b, n); retag_task(k, n) }
         Task::Spawn(c, _, k) => { retag_task(c, n); retag_task(k, n) }
-        Task::Both(t1, _, _, t2, _, _, k) => { *t1 = fresh(n); *t2 = fresh(n); retag_task(k, n) }
+        Task::Both(t1, _, _, t2, _, _, k) | Task::BothL(t1, _, _, t2, _, _, k) => { *t1 = fresh(n); *t2 = fresh(n); retag_task(k, n) }
         Task::Race(t1, _, t2, _, _, k) => { *t1 = fresh(n); *t2 = fresh(n); retag_task(k, n) }
     }
 }
